@@ -215,7 +215,7 @@ def topo_order(n, edges):
 
 # ----------------------------------------------------------------------------- Bayesian networks
 def rand_bn(rng, nmin=1, nmax=6, maxcard=3, maxtable=400, name_kind=None, label_kind=None,
-            dup=None, shape=None, max_parents=3, mincard=1):
+            dup=None, shape=None, max_parents=3, mincard=1, positive=False):
     """A random discrete BN case.
     case = {"nodes": [...], "edges": [[u,v]...] (by node *index*), "card": [...], "labels": [[...]...],
             "cpds": [{"child": i, "parents": [idx...], "table": [[str]...]}], "shape":...}
@@ -250,7 +250,7 @@ def rand_bn(rng, nmin=1, nmax=6, maxcard=3, maxtable=400, name_kind=None, label_
             ps = ps[:1]
             ncols = card[ps[0]] if ps else 1
         cols = []
-        style = rng.choice([None, None, "generic", "zeros", "det"])
+        style = "generic" if positive else rng.choice([None, None, "generic", "zeros", "det"])
         for j in range(ncols):
             if dup and cols and rng.random() < .5:
                 cols.append(list(rng.choice(cols)))
